@@ -10,15 +10,16 @@ from .c08 import check_deadline_loop
 
 LEVEL = "other"
 EXPLANATION = (
-    "Static analysis of AirTouch4/5._connection_changed, the socket's connect path and the AT4 group-status poll: R1 on connected outside the "
-    "handshake both an AC-status and a zone/group-status request are sent (right wrapper, 1 s policy), in the handshake only the version request, "
-    "nothing on connected=False; R2 the socket notifies connected=True on every successful connect before it drains, and a send issued from "
-    "that notification cannot be aborted by the purge of expired buffered messages (purge idiom C16.R2 re-used); R3 deadline-loop idiom for the "
-    "AT4 poll with T0 == T1 == _GROUP_STATUS_TIMEOUT == 300.0, event set in the steady-state group-status case, handler requests group status "
-    "under is_connected and the loop re-arms, task created on reaching CONNECTED; R4 unchanged refresh data notifies nobody (C12.R1 re-used)."
+    "Static analysis of AirTouch4/5._connection_changed, the socket's connect path and the AT4 group-status poll: R1 on connected outside the handshake "
+    'both an AC-status and a zone/group-status request are sent (right wrapper, 1 s policy), in the handshake only the version request, nothing on '
+    'connected=False; R2 the socket notifies connected=True on every successful connect before it drains, and a send issued from that notification cannot '
+    'be aborted by the purge of expired buffered messages (purge idiom C16.R2 re-used); R3 deadline-loop idiom for the AT4 poll with T0 == T1 == '
+    '_GROUP_STATUS_TIMEOUT == 300.0, event set in the steady-state group-status case, handler requests group status under is_connected and the loop '
+    're-arms, task created on reaching CONNECTED; R4 unchanged refresh data notifies nobody (C12.R1 re-used). R5 a lost connection is followed by a new one '
+    '(C07.R2 + C07.R3 re-evaluated), without which nothing is refreshed.'
 )
 ASSUMPTIONS = ["asyncio.timeout/reschedule semantics as documented"]
-FLOORS = {"C14.R1": 8, "C14.R2": 3, "C14.R3": 8, "C14.R4": 4}
+FLOORS = {"C14.R1": 8, "C14.R2": 3, "C14.R3": 8, "C14.R4": 4, "C14.R5": 1}
 
 
 def run(ctx):
